@@ -226,7 +226,7 @@ pub fn run(tier: Tier, seed: u64, replay: Option<&Path>) -> RunResult {
                 }
             }
             // recursive type shapes (vector / optional / sugar edges that point back)
-            for g in 0..per_batch / 2 {
+            for g in 0..per_batch + per_batch / 2 {
                 let tape = gen::g_rec().new_tree(&mut runner).unwrap().current();
                 for k in 0..2 {
                     let mut cfg = cov[(g * 2 + k + b) % cov.len()];
